@@ -188,6 +188,11 @@ class LinCombBool:
         Returns a LinComb
         Costs 2 constraints
         """
+        if isinstance(other, int):
+            if other < 0:
+                raise ValueError("Exponent cannot be negative")
+            if other == 0:
+                return LinComb.ONE
         return self.lc != 0
     
     def __lshift__(self, other):
